@@ -469,6 +469,12 @@ func runHistories(r *ev.Run) {
 		// fail on the destination side after the source was debited
 		variants = append(variants, chain.GenesisOptions{Runtime: true, RtGroupSize: 2, EpochInterval: 3, MinTransactBalance: 10, NodeExpiration: 12})
 	}
+	if prop == "C05" {
+		// a nearly depleted common pool: of the rewards of one epoch transition some fit and later ones do not
+		for _, cp := range []uint64{110, 160} {
+			variants = append(variants, chain.GenesisOptions{CommonPool: cp, EpochInterval: 2})
+		}
+	}
 	if prop == "C05" && r.Thorough() {
 		variants = append(variants, chain.GenesisOptions{MinTransactBalance: 10, LastBlockFees: 7, EpochInterval: 2})
 	}
